@@ -157,6 +157,21 @@ CHECKS["C06"] = {
     "note": "Trusted: JacobianSpace/JacobianBody/Adjoint (C01/C02). The length contract of _link_masses (n+1, index 0 = base link, as the URDF loader produces) is an input contract, not checked.",
 }
 
+CHECKS["C07"] = {
+    "engine": "sa",
+    "technique": "normal-form analysis of the IK kernels (flag/loop/twist-half roles), role agreement at call sites, path-sensitive write-back facts, sibling conformance by normal-form equality",
+    "design_ref": "DESIGN.md section 4 C07",
+    "text": ("Decides the structural clauses of 'IK never claims a pose it has not reached' for all goals, starts and tolerance "
+             "settings: in all three Newton kernels the success flag is `not err` of the very loop that produced the returned "
+             "joints, err is computed from the joints as updated and clamped in that iteration, the angular half of the error "
+             "twist meets the orientation tolerance and the linear half the position tolerance (also at the Arm call sites, "
+             "with screws/home/goal/limits bound by role); the clamp block covers every joint with both bounds between update "
+             "and error recomputation; IK/constrainedIK can return success only after FK(returned joints) wrote the state and "
+             "leave the state coherent on every exit; the limit-respecting kernel minus its clamp equals IKinSpace (which equals "
+             "the reference). Local convergence and 'unreachable => error above tolerance' are numerical and not decided."),
+    "note": "Trusted: FKinSpace/JacobianSpace/MatrixLog6/Adjoint (C01/C02); documented parameter roles.",
+}
+
 _PENDING = "rule module not yet built in this round (see DESIGN.md section 4 for the planned static rules)"
 for _i in range(1, 21):
     _p = "C%02d" % _i
